@@ -112,9 +112,10 @@ pub fn strategy() -> BoxedStrategy<Case> {
             h.rotate_left(k);
             Case::Totality { headers: h }
         });
-    let http = (100u16..=599, proptest::option::weighted(0.4, 0i32..=16), any::<bool>())
+    // trailer_status -1: a trailers block without any grpc-status (e.g. appended by a proxy)
+    let http = (100u16..=599, proptest::option::weighted(0.5, prop_oneof![3 => 0i32..=16, 1 => Just(-1i32)]), any::<bool>())
         .prop_map(|(status, trailer_status, empty_data)| Case::HttpStatus { status, trailer_status, empty_data });
-    let h2 = (prop_oneof![4 => 0u32..=13, 1 => 14u32..=300, 1 => any::<u32>()], 0u8..4).prop_map(|(reason, how)| Case::H2Reason { reason, how });
+    let h2 = (prop_oneof![4 => 0u32..=13, 1 => 14u32..=300, 1 => any::<u32>()], 0u8..5).prop_map(|(reason, how)| Case::H2Reason { reason, how });
     let fromerr = (0i32..=16, gen::unicode_string(12), small_bytes(20), md::entries(4, true, true), 0u8..4).prop_map(|(code, message, details, md, depth)| Case::FromError { code, message, details, md, depth });
     let httpc = (100u16..=599, any::<bool>(), any::<bool>()).prop_map(|(status, streaming, body_bytes)| Case::HttpStatusClient { status, streaming, body_bytes });
     prop_oneof![10 => rt, 10 => tot, 2 => http, 1 => h2, 1 => httpc, 2 => fromerr].boxed()
@@ -340,9 +341,14 @@ fn run_http(status: u16, trailer_status: Option<i32>, empty_data: bool, o: &mut 
     }
     if let Some(t) = trailer_status {
         let mut h = HeaderMap::new();
-        h.insert("grpc-status", HeaderValue::from_str(&t.to_string()).unwrap());
+        if t >= 0 {
+            h.insert("grpc-status", HeaderValue::from_str(&t.to_string()).unwrap());
+        } else {
+            h.insert("x-proxy-upstream-time", HeaderValue::from_static("12"));
+        }
         steps.push(BodyStep::Trailers(h));
     }
+    o.label_if(trailer_status == Some(-1), "http_with_foreign_trailers_only");
     let body = ScriptBody::new(steps);
     let mut st: Streaming<Vec<u8>> = Streaming::new_response(RawCodec::default().decoder(), body, sc, None, None);
     let evs = drive_decode(&mut st, 64, 2);
@@ -351,9 +357,10 @@ fn run_http(status: u16, trailer_status: Option<i32>, empty_data: bool, o: &mut 
     o.nontrivial = status != 200;
     let expect: Option<i32> = match trailer_status {
         Some(0) => None,
-        Some(t) => Some(t),
-        None if status == 200 => None,
-        None => Some(wire::http_status_to_code(status)),
+        Some(t) if t > 0 => Some(t),
+        // no grpc-status anywhere: the HTTP status speaks
+        _ if status == 200 => None,
+        _ => Some(wire::http_status_to_code(status)),
     };
     match (&evs[0], expect) {
         (DecEv::End, None) => {}
@@ -460,6 +467,45 @@ impl std::error::Error for Wrap {
 /// The reset as a client meets it: a raw HTTP/2 peer on the in-memory pipe answers the call with
 /// RST_STREAM(reason), before any response headers or after headers and half a message; the error then
 /// travels hyper::Error -> transport error -> Status (before headers) or through the response body.
+/// A peer that answers with HEADERS (`content-length: 0`, stream left open), no DATA, and then the status in a
+/// trailers block: an empty body says nothing about the trailers that follow it.
+fn status_in_trailers_after_empty_body(code: i32) -> Result<Status, Failure> {
+    use crate::infra::rt;
+    use std::time::Duration;
+    let (cend, send_, _h) = crate::infra::pipe::pipe(vec![], vec![]);
+    let res = rt::run_virtual(code as u64, Duration::from_secs(3600), async move {
+        let srv = tokio::spawn(async move {
+            let Ok(mut conn) = h2::server::handshake(send_).await else { return };
+            while let Some(Ok((_req, mut respond))) = conn.accept().await {
+                let resp = http::Response::builder().status(200).header("content-type", "application/grpc").header("content-length", "0").body(()).unwrap();
+                if let Ok(mut body) = respond.send_response(resp, false) {
+                    let mut t = HeaderMap::new();
+                    t.insert("grpc-status", HeaderValue::from_str(&code.to_string()).unwrap());
+                    t.insert("grpc-message", HeaderValue::from_static("no%20such%20thing"));
+                    t.insert("x-reason", HeaderValue::from_static("r1"));
+                    let _ = body.send_trailers(t);
+                }
+            }
+        });
+        let cell = std::sync::Arc::new(std::sync::Mutex::new(Some(cend)));
+        let connector = tower::service_fn(move |_u: http::Uri| {
+            let cell = cell.clone();
+            async move { cell.lock().unwrap().take().map(hyper_util::rt::TokioIo::new).ok_or_else(|| std::io::Error::new(std::io::ErrorKind::Other, "single-use connector")) }
+        });
+        let ch = tonic::transport::Endpoint::from_static("http://pipe.test").connect_with_connector(connector).await.map_err(|e| format!("connect: {e:?}"))?;
+        let mut client = crate::svc::vt::raw_client::RawClient::new(ch);
+        let r = client.unary(b"ping".to_vec()).await;
+        srv.abort();
+        Ok::<_, String>(r.map(|_| ()))
+    });
+    match res {
+        Err(_) => bail!("C04/status-after-empty-body-never-resolves", "call never resolved"),
+        Ok(Err(e)) => bail!("C04/h2-reset-setup", "{e}"),
+        Ok(Ok(Ok(()))) => bail!("C04/status-after-empty-body", "a unary call answered without a message and with grpc-status {code} in the trailers succeeded"),
+        Ok(Ok(Err(s))) => Ok(s),
+    }
+}
+
 fn h2_reset_on_the_wire(reason: u32, after_headers: bool) -> Result<Status, Failure> {
     use crate::infra::rt;
     use std::time::Duration;
@@ -504,6 +550,16 @@ fn h2_reset_on_the_wire(reason: u32, after_headers: bool) -> Result<Status, Fail
 }
 
 fn run_h2(reason: u32, how: u8, o: &mut Outcome) -> Result<(), Failure> {
+    if how % 6 == 4 {
+        // not a reset at all: family member "status in the trailers behind an empty, length-announced body"
+        let code = (reason % 16) as i32 + 1;
+        o.label("status_in_trailers_after_empty_sized_body");
+        o.nontrivial = true;
+        let st = status_in_trailers_after_empty_body(code)?;
+        ensure!(st.code() == code_of(code) && st.message() == "no such thing", "C04/status-after-empty-body", "peer sent grpc-status {code} \"no such thing\" in the trailers behind an empty body (content-length: 0); the caller got {:?} {:?}", st.code(), st.message());
+        ensure!(st.metadata().get("x-reason").map(|v| v.as_bytes() == b"r1").unwrap_or(false), "C04/status-after-empty-body", "trailing metadata lost: {:?}", st.metadata());
+        return Ok(());
+    }
     let mk = || h2::Error::from(h2::Reason::from(reason));
     let st: Status = match how % 4 {
         0 => Status::from(mk()),
@@ -577,6 +633,9 @@ impl Prop for C04 {
         let mut v = vec![];
         for status in 100u16..=599 {
             v.push(Case::HttpStatus { status, trailer_status: None, empty_data: false });
+            if status % 7 == 0 || [400u16, 401, 403, 404, 429, 502, 503, 504].contains(&status) {
+                v.push(Case::HttpStatus { status, trailer_status: Some(-1), empty_data: false });
+            }
         }
         for status in [200u16, 204, 301, 400, 401, 403, 404, 418, 429, 500, 502, 503, 504, 599] {
             for streaming in [false, true] {
@@ -584,7 +643,7 @@ impl Prop for C04 {
             }
         }
         for reason in 0u32..=13 {
-            for how in 0..4 {
+            for how in 0..5 {
                 v.push(Case::H2Reason { reason, how });
             }
         }
